@@ -201,9 +201,13 @@ func runC03(c *Ctx) error {
 			return err
 		}
 	}
+	// more than 100 orphans: nothing stored disappears, late children of early orphans still find their parent
+	if err := doHist(OrphanFloodHistory(105), "orphan-flood"); err != nil {
+		return err
+	}
 	// histories with extreme field values (all int32 versions incl. negative, max uint32 bits/nonce, timestamps 0 and 2^32-1)
 	for i, n := 0, c.Pick(150, 1500); i < n; i++ {
-		o := GenOpts{N: 2 + c.Rng.Intn(14), PUnknown: 0.1, PLate: 0.1, PDup: 0.1, PForbidden: 0.1, ZeroWork: true, Deep: i%2 == 0, Extreme: i%3 != 1, Lattice: i%3 == 1}
+		o := GenOpts{N: 2 + c.Rng.Intn(14), PUnknown: 0.1, PLate: 0.1, PDup: 0.1, PForbidden: 0.1, ZeroWork: true, Deep: i%2 == 0, Extreme: i%3 != 1, Lattice: i%3 == 1, ShareMerkle: i%4 == 2}
 		if err := doHist(GenHistory(c.Rng, o), "random-extreme"); err != nil {
 			return err
 		}
